@@ -327,7 +327,16 @@ def install_vec(I: Interp):
         return Vec([Num.const(i) for i, x in enumerate(v.items) if I.truth(x, n, label=f"nonzero[{i}]")])
     E["numpy.flatnonzero"] = flatnonzero
     E["numpy.nonzero"] = lambda I, a, k, n: (flatnonzero(I, a, k, n),)
-    E["numpy.argmax"] = lambda I, a, k, n: Num.atom(f"argmax({I.describe(a[0])})")
+    def argext(name):
+        def f(I, a, k, n):
+            v = a[0]
+            if isinstance(v, Vec):      # which element is extreme is data dependent: every index is possible
+                i = I.choose(len(v.items), f"{name}({I.describe(v)})")
+                return Num.const(i) if not getattr(I, "sympy_mode", False) else __import__("sympy").Integer(i)
+            return Num.atom(f"{name}({I.describe(v)})")
+        return f
+    E["numpy.argmax"] = argext("argmax")
+    E["numpy.argmin"] = argext("argmin")
     E["numpy.searchsorted"] = lambda I, a, k, n: Num.atom(f"searchsorted({I.describe(a[0])},{I.describe(a[1])})")
     E["numpy.isclose"] = lambda I, a, k, n: UnknownBool(f"isclose({I.describe(a[0])},{I.describe(a[1])})")
     E["scipy.stats.linregress"] = lambda I, a, k, n: tuple(Num.atom(f"linregress.{nm}({I.describe(a[0])},{I.describe(a[1])})")
